@@ -217,7 +217,8 @@ impl Real {
                     "{}/{}/{}/{}",
                     self.canon_str(c.conn_id),
                     c.local_ip,
-                    c.label.replace(' ', "_"),
+                    // the receiver may be named `localhost` (op `host`): print the label as if by address
+                    c.label.replacen("localhost:", "127.0.0.1:", 1).replace(' ', "_"),
                     tok
                 )
             })
@@ -279,6 +280,9 @@ pub struct Reload {
     dir: PathBuf,
     probe_cache: HashMap<IpAddr, bool>,
     glue_checked: bool,
+    /// how the receiver is named for this case (`host` op): the dotted quad or a NAME that resolves to it -
+    /// nothing C19 states may depend on the spelling
+    host: String,
 }
 
 fn norm_ws(s: &str) -> String {
@@ -432,6 +436,209 @@ fn parse_table(s: &str) -> Option<HashMap<IpAddr, bool>> {
 }
 
 impl Reload {
+    fn gen_case_inner(&mut self, rng: &mut Rng, tier: Tier, idx: usize) -> Vec<String> {
+        let mut ops: Vec<String> = Vec::new();
+        let _ = tier;
+        let pairs = 1024;
+        let port = 5000 + rng.below(3) as u16;
+        let mut now: u64 = 1_000_000 + rng.below(1000);
+        let pool5 = Self::pool(5);
+        if idx % 3000 == 1500 {
+            // whole-loop scenario: every file of the scenario is applicable (no refusals), so whatever the
+            // timing, once things settle the uplink set is the address set of the LAST file
+            let n0 = rng.range(1, 3) as usize;
+            let mut initial: Vec<IpAddr> = Vec::new();
+            while initial.len() < n0 {
+                let ip = *rng.pick(&pool5);
+                if !initial.contains(&ip) {
+                    initial.push(ip);
+                }
+            }
+            let mut steps: Vec<String> = Vec::new();
+            let nsteps = rng.range(1, 3);
+            for k in 0..nsteps {
+                let last = k + 1 == nsteps;
+                let target: Vec<IpAddr> = if last && nsteps >= 2 && rng.chance(1, 2) {
+                    initial.clone() // an edit reverted before (or after) it was applied
+                } else {
+                    let m = rng.range(1, 3) as usize;
+                    let mut t: Vec<IpAddr> = Vec::new();
+                    while t.len() < m {
+                        let ip = *rng.pick(&pool5);
+                        if !t.contains(&ip) {
+                            t.push(ip);
+                        }
+                    }
+                    t
+                };
+                let noise = rng.chance(1, 3);
+                let text = Self::gen_file_text(rng, &target, noise);
+                let gap = if last { 0 } else { *rng.pick(&[150u64, 200, 300, 1300]) };
+                steps.push(format!("{}@{gap}", to_hex(text.as_bytes())));
+            }
+            return vec![format!("evloop ips={} steps={}", join_list(&initial), steps.join(";"))];
+        }
+        if idx < pairs {
+            // (c) exhaustive subset pairs
+            let code = idx;
+            let (o, n) = (code >> 5, code & 31);
+            let old: Vec<IpAddr> = (0..5).filter(|b| o >> b & 1 == 1).map(|b| pool5[b]).collect();
+            let new: Vec<IpAddr> = (0..5).filter(|b| n >> b & 1 == 1).map(|b| pool5[b]).collect();
+            ops.push(format!("start port={port} now={now} ips={} conn={}", join_list(&old), self.table_for(&old)));
+            let mut tok = 0u64;
+            let mut seqs = Vec::new();
+            for (i, _) in old.iter().enumerate() {
+                tok += 1;
+                ops.push(format!("mut i={i} tok={tok} k=0 a={} b={}", now - 10, now - 20));
+                ops.push(format!("mut i={i} tok={} k=6 a={} b={}", tok + 100, 100 * (i + 1), now - 5));
+                let s = 100 * (i as u32 + 1);
+                ops.push(format!("track seq={s} id={} ts={}", i + 1, now - 5));
+                seqs.push(s);
+            }
+            ops.push(format!("sel v={}", if old.is_empty() { "-".to_string() } else { rng.below(old.len() as u64).to_string() }));
+            now += 1000;
+            if new.is_empty() || rng.chance(1, 4) {
+                ops.push(format!("apply now={now} ips={} conn={}", join_list(&new), self.table_for(&new)));
+            } else {
+                let text = Self::gen_file_text(rng, &new, false);
+                let (op, ok) = self.text_op("sighup kind=text", &text);
+                ops.push(op);
+                ops.push(format!("tick now={now} conn={}", self.table_for(&ok)));
+            }
+            for s in seqs {
+                ops.push(format!("get seq={s} now={now}"));
+            }
+            ops.push(format!("tick now={} conn=-", now + 1000));
+            return ops;
+        }
+        if rng.chance(1, 4) {
+            // (a) parser cases
+            ops.push(format!("start port={port} now={now} ips=127.0.0.1 conn={}", self.table_for(&pool5[..1])));
+            for _ in 0..rng.range(3, 8) {
+                let k = rng.below(4) as usize;
+                let mut target: Vec<IpAddr> = (0..k).map(|_| *rng.pick(&pool5)).collect();
+                if rng.chance(1, 3) {
+                    target.push(Self::exotic(rng).parse().unwrap());
+                }
+                let text = match rng.below(10) {
+                    0 => String::new(),
+                    1 => "\n \n\t\r\n".to_string(),
+                    2 => (0..rng.range(1, 4)).map(|_| Self::junk_line(rng)).collect::<Vec<_>>().join("\n"),
+                    3 => "\u{feff}127.0.0.1\n".to_string(),
+                    4 => "\u{feff}127.0.0.1\r\n127.0.0.2".to_string(),
+                    _ => Self::gen_file_text(rng, &target, true),
+                };
+                match rng.below(8) {
+                    0 => ops.push("sighup kind=missing".into()),
+                    1 => ops.push("sighup kind=dir".into()),
+                    2 => {
+                        let mut b = text.into_bytes();
+                        b.insert(rng.below(b.len() as u64 + 1) as usize, 0xff);
+                        ops.push(format!("sighup kind=raw text={}", to_hex(&b)));
+                    }
+                    3 | 4 => {
+                        let (op, _) = self.text_op("sighup kind=text", &text);
+                        ops.push(op);
+                    }
+                    _ => {
+                        let (op, _) = self.text_op("analyze", &text);
+                        ops.push(op);
+                    }
+                }
+            }
+            ops.push("state".into());
+            return ops;
+        }
+        // (b) reload sequences
+        let mut cur: Vec<IpAddr> = pool5.iter().copied().filter(|_| rng.chance(1, 2)).collect();
+        if cur.is_empty() || rng.chance(1, 8) {
+            cur.push(*rng.pick(&pool5));
+        }
+        if rng.chance(1, 6) {
+            let d = *rng.pick(&cur);
+            cur.push(d); // duplicated line at startup: two uplinks with one label
+        }
+        if rng.chance(1, 8) {
+            cur.push(Self::exotic(rng).parse().unwrap());
+        }
+        ops.push(format!("start port={port} now={now} ips={} conn={}", join_list(&cur), self.table_for(&cur)));
+        // shadow of which links exist (only to aim indices / ids; the real outcome is never predicted)
+        let mut live: Vec<IpAddr> = cur.iter().copied().filter(|ip| self.probe(*ip)).collect();
+        let mut created = live.len() as u64;
+        let mut tok = 0u64;
+        let mut seqs: Vec<(u32, u64)> = Vec::new();
+        let mut pending: Option<Vec<IpAddr>> = None;
+        let reloads = rng.range(2, 6);
+        for _ in 0..reloads {
+            now += rng.range(1, 3000);
+            self.gen_env(rng, &mut ops, live.len(), created, &mut tok, now, &mut seqs);
+            let mut target: Vec<IpAddr> = pool5.iter().copied().filter(|_| rng.chance(1, 2)).collect();
+            for i in (1..target.len()).rev() {
+                let j = rng.below(i as u64 + 1) as usize;
+                if rng.chance(1, 2) {
+                    target.swap(i, j);
+                }
+            }
+            if rng.chance(1, 5) {
+                target.push(Self::exotic(rng).parse().unwrap());
+            }
+            let n_sighup = if rng.chance(1, 5) { 2 } else { 1 };
+            for _ in 0..n_sighup {
+                match rng.below(12) {
+                    0 => ops.push("sighup kind=missing".into()),
+                    1 => {
+                        let (op, _) = self.text_op("sighup kind=text", "\n  \n");
+                        ops.push(op);
+                    }
+                    2 => {
+                        let (op, _) = self.text_op("sighup kind=text", "garbage\n\nmore garbage\n");
+                        ops.push(op);
+                    }
+                    _ => {
+                        let noise = rng.chance(1, 2);
+                        let text = Self::gen_file_text(rng, &target, noise);
+                        let (op, ok) = self.text_op("sighup kind=text", &text);
+                        ops.push(op);
+                        if !ok.is_empty() {
+                            pending = Some(ok);
+                        }
+                    }
+                }
+                if rng.chance(1, 3) {
+                    self.gen_env(rng, &mut ops, live.len(), created, &mut tok, now, &mut seqs);
+                }
+            }
+            now += rng.range(1, 1000);
+            let table = self.table_for(pending.as_deref().unwrap_or(&[]));
+            ops.push(format!("tick now={now} conn={table}"));
+            if let Some(p) = pending.take() {
+                let desired: HashSet<IpAddr> = p.iter().copied().collect();
+                let mut next: Vec<IpAddr> = live.iter().copied().filter(|ip| desired.contains(ip)).collect();
+                for ip in &p {
+                    if !live.contains(ip) && !next.contains(ip) && self.probe(*ip) {
+                        next.push(*ip);
+                        created += 1;
+                    }
+                }
+                live = next;
+            }
+            for _ in 0..rng.below(3) {
+                if !seqs.is_empty() {
+                    let (s, ts) = *rng.pick(&seqs);
+                    let at = if rng.chance(1, 2) {
+                        ts + *rng.pick(&[0u64, 4999, 5000, 5001])
+                    } else {
+                        now + *rng.pick(&[0u64, 1, 4000, 5000, 5001, 9000])
+                    };
+                    ops.push(format!("get seq={s} now={at}"));
+                }
+            }
+            if rng.chance(1, 6) {
+                ops.push(format!("tick now={} conn=-", now + 1));
+            }
+        }
+        ops
+    }
     fn new() -> Self {
         let rt = tokio::runtime::Builder::new_current_thread().enable_all().build().unwrap();
         let attempts: Arc<Mutex<Vec<IpAddr>>> = Arc::new(Mutex::new(Vec::new()));
@@ -445,7 +652,7 @@ impl Reload {
         }));
         let dir = std::env::temp_dir().join(format!("verif_reload_{}", std::process::id()));
         let _ = std::fs::create_dir_all(&dir);
-        Reload { rt, attempts, binder, st: None, dir, probe_cache: HashMap::new(), glue_checked: false }
+        Reload { rt, attempts, binder, st: None, dir, probe_cache: HashMap::new(), glue_checked: false, host: HOST.to_string() }
     }
 
     /// Generator side: connect outcome of one address, measured on the real code (cached).
@@ -653,11 +860,12 @@ impl Reload {
         let before = st.snap(now);
         self.attempts.lock().unwrap().clear();
         let port = st.port;
+        let host = self.host.clone();
         self.rt.block_on(apply_connection_changes(
             &mut st.connections,
             &mut st.conn_io,
             new_ips,
-            HOST,
+            &host,
             port,
             &mut st.last_selected,
             &mut st.tracker,
@@ -1001,211 +1209,18 @@ impl Component for Reload {
     }
 
     fn gen_case(&mut self, rng: &mut Rng, tier: Tier, idx: usize) -> Vec<String> {
-        let mut ops: Vec<String> = Vec::new();
-        let _ = tier;
-        let pairs = 1024;
-        let port = 5000 + rng.below(3) as u16;
-        let mut now: u64 = 1_000_000 + rng.below(1000);
-        let pool5 = Self::pool(5);
-        if idx % 3000 == 1500 {
-            // whole-loop scenario: every file of the scenario is applicable (no refusals), so whatever the
-            // timing, once things settle the uplink set is the address set of the LAST file
-            let n0 = rng.range(1, 3) as usize;
-            let mut initial: Vec<IpAddr> = Vec::new();
-            while initial.len() < n0 {
-                let ip = *rng.pick(&pool5);
-                if !initial.contains(&ip) {
-                    initial.push(ip);
-                }
-            }
-            let mut steps: Vec<String> = Vec::new();
-            let nsteps = rng.range(1, 3);
-            for k in 0..nsteps {
-                let last = k + 1 == nsteps;
-                let target: Vec<IpAddr> = if last && nsteps >= 2 && rng.chance(1, 2) {
-                    initial.clone() // an edit reverted before (or after) it was applied
-                } else {
-                    let m = rng.range(1, 3) as usize;
-                    let mut t: Vec<IpAddr> = Vec::new();
-                    while t.len() < m {
-                        let ip = *rng.pick(&pool5);
-                        if !t.contains(&ip) {
-                            t.push(ip);
-                        }
-                    }
-                    t
-                };
-                let noise = rng.chance(1, 3);
-                let text = Self::gen_file_text(rng, &target, noise);
-                let gap = if last { 0 } else { *rng.pick(&[150u64, 200, 300, 1300]) };
-                steps.push(format!("{}@{gap}", to_hex(text.as_bytes())));
-            }
-            return vec![format!("evloop ips={} steps={}", join_list(&initial), steps.join(";"))];
-        }
-        if idx < pairs {
-            // (c) exhaustive subset pairs
-            let code = idx;
-            let (o, n) = (code >> 5, code & 31);
-            let old: Vec<IpAddr> = (0..5).filter(|b| o >> b & 1 == 1).map(|b| pool5[b]).collect();
-            let new: Vec<IpAddr> = (0..5).filter(|b| n >> b & 1 == 1).map(|b| pool5[b]).collect();
-            ops.push(format!("start port={port} now={now} ips={} conn={}", join_list(&old), self.table_for(&old)));
-            let mut tok = 0u64;
-            let mut seqs = Vec::new();
-            for (i, _) in old.iter().enumerate() {
-                tok += 1;
-                ops.push(format!("mut i={i} tok={tok} k=0 a={} b={}", now - 10, now - 20));
-                ops.push(format!("mut i={i} tok={} k=6 a={} b={}", tok + 100, 100 * (i + 1), now - 5));
-                let s = 100 * (i as u32 + 1);
-                ops.push(format!("track seq={s} id={} ts={}", i + 1, now - 5));
-                seqs.push(s);
-            }
-            ops.push(format!("sel v={}", if old.is_empty() { "-".to_string() } else { rng.below(old.len() as u64).to_string() }));
-            now += 1000;
-            if new.is_empty() || rng.chance(1, 4) {
-                ops.push(format!("apply now={now} ips={} conn={}", join_list(&new), self.table_for(&new)));
-            } else {
-                let text = Self::gen_file_text(rng, &new, false);
-                let (op, ok) = self.text_op("sighup kind=text", &text);
-                ops.push(op);
-                ops.push(format!("tick now={now} conn={}", self.table_for(&ok)));
-            }
-            for s in seqs {
-                ops.push(format!("get seq={s} now={now}"));
-            }
-            ops.push(format!("tick now={} conn=-", now + 1000));
-            return ops;
-        }
-        if rng.chance(1, 4) {
-            // (a) parser cases
-            ops.push(format!("start port={port} now={now} ips=127.0.0.1 conn={}", self.table_for(&pool5[..1])));
-            for _ in 0..rng.range(3, 8) {
-                let k = rng.below(4) as usize;
-                let mut target: Vec<IpAddr> = (0..k).map(|_| *rng.pick(&pool5)).collect();
-                if rng.chance(1, 3) {
-                    target.push(Self::exotic(rng).parse().unwrap());
-                }
-                let text = match rng.below(10) {
-                    0 => String::new(),
-                    1 => "\n \n\t\r\n".to_string(),
-                    2 => (0..rng.range(1, 4)).map(|_| Self::junk_line(rng)).collect::<Vec<_>>().join("\n"),
-                    3 => "\u{feff}127.0.0.1\n".to_string(),
-                    4 => "\u{feff}127.0.0.1\r\n127.0.0.2".to_string(),
-                    _ => Self::gen_file_text(rng, &target, true),
-                };
-                match rng.below(8) {
-                    0 => ops.push("sighup kind=missing".into()),
-                    1 => ops.push("sighup kind=dir".into()),
-                    2 => {
-                        let mut b = text.into_bytes();
-                        b.insert(rng.below(b.len() as u64 + 1) as usize, 0xff);
-                        ops.push(format!("sighup kind=raw text={}", to_hex(&b)));
-                    }
-                    3 | 4 => {
-                        let (op, _) = self.text_op("sighup kind=text", &text);
-                        ops.push(op);
-                    }
-                    _ => {
-                        let (op, _) = self.text_op("analyze", &text);
-                        ops.push(op);
-                    }
-                }
-            }
-            ops.push("state".into());
-            return ops;
-        }
-        // (b) reload sequences
-        let mut cur: Vec<IpAddr> = pool5.iter().copied().filter(|_| rng.chance(1, 2)).collect();
-        if cur.is_empty() || rng.chance(1, 8) {
-            cur.push(*rng.pick(&pool5));
-        }
-        if rng.chance(1, 6) {
-            let d = *rng.pick(&cur);
-            cur.push(d); // duplicated line at startup: two uplinks with one label
-        }
-        if rng.chance(1, 8) {
-            cur.push(Self::exotic(rng).parse().unwrap());
-        }
-        ops.push(format!("start port={port} now={now} ips={} conn={}", join_list(&cur), self.table_for(&cur)));
-        // shadow of which links exist (only to aim indices / ids; the real outcome is never predicted)
-        let mut live: Vec<IpAddr> = cur.iter().copied().filter(|ip| self.probe(*ip)).collect();
-        let mut created = live.len() as u64;
-        let mut tok = 0u64;
-        let mut seqs: Vec<(u32, u64)> = Vec::new();
-        let mut pending: Option<Vec<IpAddr>> = None;
-        let reloads = rng.range(2, 6);
-        for _ in 0..reloads {
-            now += rng.range(1, 3000);
-            self.gen_env(rng, &mut ops, live.len(), created, &mut tok, now, &mut seqs);
-            let mut target: Vec<IpAddr> = pool5.iter().copied().filter(|_| rng.chance(1, 2)).collect();
-            for i in (1..target.len()).rev() {
-                let j = rng.below(i as u64 + 1) as usize;
-                if rng.chance(1, 2) {
-                    target.swap(i, j);
-                }
-            }
-            if rng.chance(1, 5) {
-                target.push(Self::exotic(rng).parse().unwrap());
-            }
-            let n_sighup = if rng.chance(1, 5) { 2 } else { 1 };
-            for _ in 0..n_sighup {
-                match rng.below(12) {
-                    0 => ops.push("sighup kind=missing".into()),
-                    1 => {
-                        let (op, _) = self.text_op("sighup kind=text", "\n  \n");
-                        ops.push(op);
-                    }
-                    2 => {
-                        let (op, _) = self.text_op("sighup kind=text", "garbage\n\nmore garbage\n");
-                        ops.push(op);
-                    }
-                    _ => {
-                        let noise = rng.chance(1, 2);
-                        let text = Self::gen_file_text(rng, &target, noise);
-                        let (op, ok) = self.text_op("sighup kind=text", &text);
-                        ops.push(op);
-                        if !ok.is_empty() {
-                            pending = Some(ok);
-                        }
-                    }
-                }
-                if rng.chance(1, 3) {
-                    self.gen_env(rng, &mut ops, live.len(), created, &mut tok, now, &mut seqs);
-                }
-            }
-            now += rng.range(1, 1000);
-            let table = self.table_for(pending.as_deref().unwrap_or(&[]));
-            ops.push(format!("tick now={now} conn={table}"));
-            if let Some(p) = pending.take() {
-                let desired: HashSet<IpAddr> = p.iter().copied().collect();
-                let mut next: Vec<IpAddr> = live.iter().copied().filter(|ip| desired.contains(ip)).collect();
-                for ip in &p {
-                    if !live.contains(ip) && !next.contains(ip) && self.probe(*ip) {
-                        next.push(*ip);
-                        created += 1;
-                    }
-                }
-                live = next;
-            }
-            for _ in 0..rng.below(3) {
-                if !seqs.is_empty() {
-                    let (s, ts) = *rng.pick(&seqs);
-                    let at = if rng.chance(1, 2) {
-                        ts + *rng.pick(&[0u64, 4999, 5000, 5001])
-                    } else {
-                        now + *rng.pick(&[0u64, 1, 4000, 5000, 5001, 9000])
-                    };
-                    ops.push(format!("get seq={s} now={at}"));
-                }
-            }
-            if rng.chance(1, 6) {
-                ops.push(format!("tick now={} conn=-", now + 1));
-            }
+        let mut ops = self.gen_case_inner(rng, tier, idx);
+        // every third stateful case names the receiver `localhost` instead of 127.0.0.1
+        if idx % 3 == 2 && ops.first().is_some_and(|o| o.starts_with("start ")) {
+            ops.insert(0, "host localhost".into());
         }
         ops
     }
 
+
     fn start_case(&mut self) {
         self.st = None; // drops ConnIo -> closes every socket of the previous case
+        self.host = HOST.to_string();
         self.attempts.lock().unwrap().clear();
         verif_clock::set(None);
     }
@@ -1224,6 +1239,24 @@ impl Component for Reload {
                 self.run_evloop(ips, steps, mon);
                 "evloop-ok".into()
             }
+            ["host", name] => {
+                // how the receiver is named from here on: its dotted quad or a name resolving to it. Takes effect
+                // only before `start`; when the name does not resolve to 127.0.0.1 first here, the address is kept.
+                if *name != HOST && *name != "localhost" {
+                    return "bad-op".into();
+                }
+                if self.st.is_none() {
+                    use std::net::ToSocketAddrs;
+                    let first = (*name, 5000u16).to_socket_addrs().ok().and_then(|mut a| a.next());
+                    if first == Some(std::net::SocketAddr::from(([127, 0, 0, 1], 5000))) {
+                        self.host = name.to_string();
+                        mon.count(if *name == HOST { "host-by-address" } else { "host-by-name" });
+                    } else {
+                        mon.count("host-by-name-skipped:does-not-resolve");
+                    }
+                }
+                "ok".into()
+            }
             ["start", rest @ ..] => {
                 let (Some(port), Some(now), Some(ips), Some(table)) = (
                     kv_parse::<u16>(rest, "port"),
@@ -1239,9 +1272,10 @@ impl Component for Reload {
                 verif_clock::set(Some(now));
                 let mut st = Real::new(port);
                 self.attempts.lock().unwrap().clear();
+                let host = self.host.clone();
                 st.connections = self.rt.block_on(create_connections_from_ips(
                     &ips,
-                    HOST,
+                    &host,
                     port,
                     &self.binder,
                     &mut st.conn_io,
@@ -1329,7 +1363,7 @@ impl Component for Reload {
                     IpReload::Apply { ips, first_invalid_line: _ } => {
                         st.pending = Some(PendingConnectionChanges {
                             new_ips: Some(ips),
-                            receiver_host: HOST.to_string(),
+                            receiver_host: self.host.clone(),
                             receiver_port: st.port,
                         });
                     }
